@@ -160,6 +160,10 @@ func (m *sqlModel) resolveCol(p *synth.Pkg, t *synth.TypeRef, c *sqlCol, depth i
 				c.ElemKind = "int"
 			}
 			if t.K == synth.TArray {
+				if t.Elem.K == synth.TBasic && (t.Elem.Name == "uint8" || t.Elem.Name == "byte") {
+					// [N]byte: the statement leaves the choice between a typed array and bytea
+					c.Types = append(c.Types, "bytea")
+				}
 				c.ArrayLen, c.NotNull = t.Len, true
 				if t.Len == 0 {
 					c.ArrayLen = -1 // zero-length: a length CHECK of 0
